@@ -1,0 +1,110 @@
+//go:build verif
+
+// Contracts for the deductive verification in /verif (govc), topic builder: the writing side
+// of property C21 ("cryptobyte builders and readers are exact inverses"). Comments only.
+
+package cryptobyte
+
+// A Builder object does not live inside its own output buffer.
+//@ pred okB(b) = b != nil && sep(b, b.result)
+
+// ---------------------------------------------------------------- builder.go: add and the fixed-width writers
+
+// "add appends bytes": after an error nothing is written; with a pending child writing is a
+// programming error (panic); a fixed-size builder never reallocates and reports an overflow as
+// an error; otherwise the result is the old result followed by exactly the given bytes.
+//@ pred addFits(b, n) = !b.fixedSize || len(b.result)+n <= cap(b.result)
+//@ func (*Builder).add
+//@   requires okB(b) && sep(bytes, b)
+//@   panics_when b.err == nil && b.child != nil
+//@   ensures  [err] old(b.err) != nil ==> b.err == old(b.err) && same(b.result, old(b.result))
+//@   ensures  [full] old(b.err) == nil && !old(addFits(b, len(bytes))) ==> b.err != nil && same(b.result, old(b.result))
+//@   ensures  [ok] old(b.err) == nil && old(addFits(b, len(bytes))) ==> b.err == nil && len(b.result) == old(len(b.result))+len(bytes)
+//@   ensures  [prefix] old(b.err) == nil && old(addFits(b, len(bytes))) ==> forall(i, 0, old(len(b.result)), b.result[i] == old(b.result[i]))
+//@   ensures  [bytes] old(b.err) == nil && old(addFits(b, len(bytes))) ==> forall(j, 0, len(bytes), b.result[old(len(b.result))+j] == old(bytes[j]))
+//@   ensures  [inplace] old(b.err) == nil && old(len(b.result))+len(bytes) <= old(cap(b.result)) ==> same(b.result, old(b.result)[:old(len(b.result))+len(bytes)])
+//@   ensures  [fresh] old(b.err) == nil && old(addFits(b, len(bytes))) && old(len(b.result))+len(bytes) > old(cap(b.result)) ==> fresh(b.result)
+//@   ensures  [sep] sep(b, b.result)
+//@   modifies b.err, b.result, elems(b.result, len(b.result), cap(b.result))
+//@   terminates
+
+// Fixed-width writers: big-endian value appended (X bytes), as the matching ReadUintX reads it.
+//@ pred wrote(b, n) = b.err == nil && len(b.result) == old(len(b.result))+n && forall(i, 0, old(len(b.result)), b.result[i] == old(b.result[i]))
+//@ pred canWrite(b, n) = b.err == nil && b.child == nil && addFits(b, n)
+//@ func (*Builder).AddUint8
+//@   requires okB(b)
+//@   panics_when b.err == nil && b.child != nil
+//@   ensures  old(canWrite(b, 1)) ==> wrote(b, 1) && b.result[old(len(b.result))] == v
+//@   ensures  old(b.err) != nil ==> b.err == old(b.err) && same(b.result, old(b.result))
+//@   modifies b.err, b.result, elems(b.result, len(b.result), cap(b.result))
+//@   terminates
+
+//@ func (*Builder).AddUint16
+//@   requires okB(b)
+//@   panics_when b.err == nil && b.child != nil
+//@   ensures  old(canWrite(b, 2)) ==> wrote(b, 2) && uint16(b.result[old(len(b.result))])<<8 | uint16(b.result[old(len(b.result))+1]) == v
+//@   ensures  old(b.err) != nil ==> b.err == old(b.err) && same(b.result, old(b.result))
+//@   modifies b.err, b.result, elems(b.result, len(b.result), cap(b.result))
+//@   terminates
+
+// "The highest byte of the 32-bit input value is silently truncated."
+//@ func (*Builder).AddUint24
+//@   requires okB(b)
+//@   panics_when b.err == nil && b.child != nil
+//@   ensures  old(canWrite(b, 3)) ==> wrote(b, 3) && uint32(b.result[old(len(b.result))])<<16 | uint32(b.result[old(len(b.result))+1])<<8 | uint32(b.result[old(len(b.result))+2]) == v&0xffffff
+//@   ensures  old(b.err) != nil ==> b.err == old(b.err) && same(b.result, old(b.result))
+//@   modifies b.err, b.result, elems(b.result, len(b.result), cap(b.result))
+//@   terminates
+
+//@ func (*Builder).AddUint32
+//@   requires okB(b)
+//@   panics_when b.err == nil && b.child != nil
+//@   ensures  old(canWrite(b, 4)) ==> wrote(b, 4) && uint32(b.result[old(len(b.result))])<<24 | uint32(b.result[old(len(b.result))+1])<<16 | uint32(b.result[old(len(b.result))+2])<<8 | uint32(b.result[old(len(b.result))+3]) == v
+//@   ensures  old(b.err) != nil ==> b.err == old(b.err) && same(b.result, old(b.result))
+//@   modifies b.err, b.result, elems(b.result, len(b.result), cap(b.result))
+//@   terminates
+
+//@ func (*Builder).AddBytes
+//@   requires okB(b) && sep(v, b)
+//@   panics_when b.err == nil && b.child != nil
+//@   ensures  old(canWrite(b, len(v))) ==> wrote(b, len(v)) && forall(j, 0, len(v), b.result[old(len(b.result))+j] == old(v[j]))
+//@   ensures  old(b.err) != nil ==> b.err == old(b.err) && same(b.result, old(b.result))
+//@   modifies b.err, b.result, elems(b.result, len(b.result), cap(b.result))
+//@   terminates
+
+// "Bytes returns the bytes written by the builder or an error if one has occurred."
+//@ func (*Builder).Bytes
+//@   requires b != nil && 0 <= b.offset && b.offset <= len(b.result)
+//@   ensures  b.err != nil ==> result0 == nil && result1 == b.err
+//@   ensures  b.err == nil ==> result1 == nil && same(result0, b.result[b.offset:])
+//@   modifies nothing
+//@   terminates
+
+// ---------------------------------------------------------------- builder.go: length back-patching
+
+// flushChild closes the pending length-prefixed block of b: the child builder c = b.child has
+// written pl reserved length bytes at c.offset followed by the body (L bytes).
+//   ASN.1 block (pl == 1): the single reserved byte becomes the DER definite length of L in
+//     its minimal form (X.690 8.1.3, 10.1): L < 128: one octet L; otherwise 0x80|k followed by
+//     the k = len_octets(L) big-endian octets of L, and the body is moved up by k bytes.
+// PARTIAL CLAIM (`claims at`): a full functional contract (header bytes, moved body, untouched
+// prefix, both block kinds) was written and 119 of its 129 obligations discharged, but the
+// invariants of the length-writing loop after add + overlapping copy time out in every solver
+// (a valid goal as simple as `child.pendingLenLen <= 4` at the loop head does not come back
+// within 120 s), so nothing about the function's result is promised. What IS proved for all
+// inputs is the decision that matters for the DER length: at the call that makes room for the
+// extra length octets, their number is exactly len_octets(L) (so the long form is used iff
+// L >= 128 and with the minimal number of octets), and the first length octet already stored is
+// 0x80|k. The attempt also exposed the fixed-size-buffer defect repaired in 4fe086d.
+//@ pred fcL(c) = len(c.result) - c.pendingLenLen - c.offset
+//@ pred fcK(L) = ite(L < 128, 0, spec.len_octets(L))
+//@ pred fcOK(b) = okB(b) && b.child != nil && b.child != b && okB(b.child) && b.child.child == nil && b.child.err == nil && 0 <= b.child.offset && 1 <= b.child.pendingLenLen && b.child.pendingLenLen <= 4 && fcL(b.child) >= 0 && sep(b, b.child.result) && sep(b.child, b.result)
+//@ func (*Builder).flushChild
+//@   claims at ensures
+//@   uses perreturn
+//@   requires b != nil
+//@   requires b.child != nil ==> fcOK(b)
+//@   at call add assert len(arg1) == fcK(old(fcL(b.child))) && old(fcL(b.child)) >= 128 && lenByte == 0x80|uint8(len(arg1))
+//@   ensures [none] old(b.child) == nil ==> sameheap()
+//@   maypanic
+//@   modifies all
